@@ -121,6 +121,8 @@ extern void ExpandLine(char const* TokNam, unsigned TokenNum, struct as_dynstr* 
 
 extern void KillCtrl(as_dynstr_t* p_line);
 
+extern Boolean ChkArgCodeSpace(unsigned ElemBytes);
+
 extern void AddCopyright(char const* NewLine);
 
 extern void WriteCopyrights(TSwitchProc NxtProc);
